@@ -119,7 +119,7 @@ PARAMS = {
     "add_variables": ["indexes", "name_prefix", "lb", "ub", "var_type"],
     "add_constraint": ["expr", "name"],
     "add_binary_continuous_product_constraint": ["binary_var", "continuous_var", "product_var", "lb", "ub", "name"],
-    "add_integer_continuous_product_constraint": ["integer_var", "continuous_var", "product_var", "lb", "ub", "name"],
+    "add_integer_continuous_product_constraint": ["integer_var", "continuous_var", "product_var", "lb", "ub", "name", "integer_ub"],
     "add_piecewise_constant_constraint": ["x", "y", "ranges", "constants", "name_prefix"],
     "queue_fix_variable": ["var", "value"],
     "queue_set_var_lower_bound": ["var", "lb"],
@@ -1430,7 +1430,7 @@ def _payload(kind: str, args: Dict[str, ast.AST], target: Optional[str], nz: "No
         for k in ("binary_var", "integer_var", "continuous_var", "product_var"):
             if k in args:
                 out[k] = _varref(args[k])
-        for k in ("lb", "ub"):
+        for k in ("lb", "ub", "integer_ub"):
             if k in args:
                 out[k] = poly_text(args[k])
     elif kind == "add_piecewise_constant_constraint":
